@@ -141,7 +141,7 @@ def _squash_impl(text):
 
 class CallInfo:
     __slots__ = ('text', 'kind', 'fn', 'model', 'self_ty', 'trait', 'method', 'generics', 'key', 'segs', 'impl_ty',
-                 'name', 'nderef')
+                 'name', 'nderef', 'fallback_fn')
 
     def __repr__(self):
         return 'CallInfo(%s)' % self.text
@@ -1257,6 +1257,7 @@ class Engine:
         ci.impl_ty = None
         ci.generics = []
         ci.nderef = 0
+        ci.fallback_fn = None
         segs = split_path(text)
         ci.segs = segs
         # generics of the final segment
@@ -1333,6 +1334,7 @@ class Engine:
                 ci.kind = 'model'
                 ci.model = icp[1]
                 ci.key = 'intercept:' + icp[0]
+                ci.fallback_fn = fn
                 return ci
             ci.kind = 'mir'
             ci.fn = fn
